@@ -4,6 +4,7 @@ import Verif.Spec.LineCol
 import Verif.Gen.LexerFacts
 import Verif.Spec.Tokens
 import Verif.Proofs.Lexer
+import Verif.Proofs.LexerTotal
 /-!
 # C37 — Lexing, parsing and checking are total and report in-range positions
 
@@ -62,16 +63,31 @@ theorem preds_false_on_EOF :
     isSpaceRune EOF = false ∧ isIdentifierRune EOF = false ∧ notLineEnd EOF = false ∧ isBinary EOF = false ∧
     isOctal EOF = false ∧ isHex EOF = false ∧ isDecimalDigitOrUnderscore EOF = false := by decide
 
-/-- PARTIAL (totality).  Full statement wanted (`lex_total`): for every input, `run (fuelFor inp)` never returns
-    `Stop.outOfFuel` and the final `err` is `none` or `tokenLimit` (no "second backup", no slice panic, no
-    exhausted loop fuel).  Proved here: the building blocks.  From any state that is inside the input
+/-- `lex_total`: for every byte string and every token limit, the loop of `run` — started with the fuel
+    `2·len + 4` of `fuelFor` — never runs out of fuel, and the only panic that can unwind to `run`'s recover is
+    the token limit: no "second backup", no slice expression out of range, no exhausted loop fuel of the port's
+    inner loops (`acceptWhile`, `scanString`, `endPos`).
+    Proof (`Verif.Proofs.LexerTotal`): the invariant "inside the input, nothing read ahead, every state function
+    other than `rootState` entered after at least one rune" is preserved by each of the seven state functions
+    (composition of the per-primitive `A` / `B` lemmas through every branch of `state.go`), and the measure
+    `2·(len − endOffset) + (1 for rootState, 2 otherwise)` strictly decreases with every call: `rootState` and
+    `blockCommentState` consume at least one rune or stop, the other state functions return to `rootState`
+    without moving backwards. -/
+theorem lex_total (limit : Nat) (inp : Bytes) :
+    (lexWith limit inp).stop ≠ .outOfFuel ∧
+    ((lexWith limit inp).final.err = none ∨ (lexWith limit inp).final.err = some .tokenLimit) :=
+  Verif.Proofs.LexerTotal.lexWith_total limit inp
+
+/-- non-vacuity: both outcomes occur — a normal stop in `rootState`, and the token limit -/
+example : (lex #[120, 32, 49]).stop = .done .root ∧ (lex #[120, 32, 49]).final.err = none := by decide
+example : (lexWith 2 #[120, 32, 49]).stop = .panicked ∧ (lexWith 2 #[120, 32, 49]).final.err = some .tokenLimit := by decide
+
+/-- the building blocks of `lex_total`, per primitive: from any state that is inside the input
     (`startOffset ≤ endOffset ≤ len`, no error other than the token limit) the loops `acceptWhile f` (for every
     predicate of the source), `scanString`, and `emitType` / `emitError` (once a rune has been read) end in
-    such a state again, with `endOffset` not smaller than before: in particular their fuel
-    (`len + 1 - endOffset`) is never exhausted, `backupOne` never panics, and no slice expression is out of
-    range.  MISSING: the composition through the seven state functions and the measure argument for `run`'s
-    fuel `2·len + 4`; for those the `lex` stream flags any `hang` / `err-other` of the port or of Go as a
-    `crash` violation on every generated input. -/
+    such a state again, with `endOffset` not smaller than before: their fuel (`len + 1 - endOffset`) is never
+    exhausted, `backupOne` never panics, and no slice expression is out of range.  (`_partial`: a statement
+    about the loops only; the composition is `lex_total`.) -/
 theorem lex_loops_total_partial (l : L) (h : Verif.Proofs.Lexer.InBounds l) :
     let n := l.input.size
     let m := l.endOffset
